@@ -236,6 +236,19 @@ pub fn bump(class: &str, n: u64) {
     EXTRA.with(|e| *e.borrow_mut().entry(class.to_string()).or_default() += n);
 }
 
+thread_local! {
+    static NOTES: std::cell::RefCell<Vec<String>> = const { std::cell::RefCell::new(Vec::new()) };
+}
+
+/// Something worth telling in the evidence of the running suite (kept: the first three)
+pub fn note(text: String) {
+    NOTES.with(|n| n.borrow_mut().push(text));
+}
+
+fn take_notes() -> Vec<String> {
+    NOTES.with(|n| std::mem::take(&mut *n.borrow_mut()))
+}
+
 fn take_extra() -> BTreeMap<String, u64> {
     EXTRA.with(|e| std::mem::take(&mut *e.borrow_mut()))
 }
@@ -481,7 +494,7 @@ impl Ctx {
                         Some(v) => Err(v),
                         None => {
                             bump("unconfirmed-real-clock-failure", 1);
-                            eprintln!("note: {} {}: a real-clock case failed once and passed twice on re-execution (not counted): {} {}", prop, name, first.sig, first.msg);
+                            note(format!("a real-clock case failed once and passed twice on re-execution (not counted): {} {}", first.sig, first.msg.chars().take(600).collect::<String>()));
                             Ok(())
                         }
                     }
@@ -489,9 +502,15 @@ impl Ctx {
                 v => v,
             };
             let extra = take_extra();
+            let notes = take_notes();
             let mut st = st.borrow_mut();
             let st = &mut *st;
             if !st.failed {
+                for n in notes {
+                    if st.local.notes.len() < 3 {
+                        st.local.notes.push(n);
+                    }
+                }
                 for (k, v) in extra {
                     *st.local.classes.entry(k).or_default() += v;
                 }
@@ -541,6 +560,11 @@ impl Ctx {
         for x in local.samples {
             if s.samples.len() < 3 {
                 s.samples.push(x);
+            }
+        }
+        for n in local.notes {
+            if s.notes.len() < 3 {
+                s.notes.push(n);
             }
         }
         for (k, v) in known_hits {
